@@ -228,7 +228,13 @@ def z1_framing(prog, ctx, wc):
                     ctx.fail("Z1", pth.exit_node or f, f._qualname, "path %s" % pth.describe()[:80], "a record is deserialised (%s) on a path that "
                              "has not established its kind" % des)
                 continue
-            if des != [want[kind]] or len(rids) != 1:
+            if not des and len(rids) == 1:
+                # the record is decoded through a call the analysis cannot resolve (a method picked into a variable, a dispatch table)
+                if (kind, "bad") not in seen:
+                    ctx.undecided("Z1", pth.exit_node or f, f._qualname, "after %s() no call of %s is visible on the path (decoded through an "
+                                  "indirect call?)" % (kind, want[kind]))
+                seen[(kind, "bad")] = True
+            elif des != [want[kind]] or len(rids) != 1:
                 if (kind, "bad") not in seen:
                     ctx.fail("Z1", pth.exit_node or f, f._qualname, "%s: %s" % (kind, pth.describe()[:80]),
                              "after %s() the loader must call %s once and then read the next tag once (found %s, %d tag reads)"
@@ -591,6 +597,33 @@ def z2_codecs(prog, ctx, wc):
             res[tag] = (ops, node)
         return res
     wbr, rbr = branches(wd_, True), branches(rd_, False)
+    if not wbr or not rbr:
+        # table-driven form: one module-level table of rows (..., DICT_*_TYPE tag, writer, reader) used by both functions
+        ser_mod = prog.module(SER)
+        rows = []
+        for name_, v_ in ser_mod.assigns.items():
+            if isinstance(v_, (ast.Tuple, ast.List)) and v_.elts and all(isinstance(r_, ast.Tuple) for r_ in v_.elts):
+                for r_ in v_.elts:
+                    tag = next((dotted(x) for x in r_.elts if (dotted(x) or "").startswith("DICT_")), None)
+                    fns = [dotted(x) for x in r_.elts if isinstance(x, ast.Name) and ("write" in x.id or "read" in x.id)]
+                    if tag and len(fns) == 2:
+                        rows.append((name_, tag, fns, r_))
+        used_both = rows and all(any(isinstance(n_, ast.Name) and n_.id == rows[0][0] for n_ in ast.walk(fn_)) or
+                                 any(isinstance(n_, ast.Name) and n_.id in ser_mod.assigns and rows[0][0] in src(ser_mod.assigns[n_.id])
+                                     for n_ in ast.walk(fn_)) for fn_ in (wd_, rd_))
+        if not rows or not used_both:
+            ctx.undecided("Z2", wd_, "write_dict / read_dict", "neither per-tag branches nor a shared (tag, writer, reader) table were found")
+            return pairs
+        for tname, tag, fns, node in rows:
+            w_ = next((f_ for f_ in fns if "write" in f_), None)
+            r_ = next((f_ for f_ in fns if "read" in f_), None)
+            if w_ is None or r_ is None or w_.replace("write", "") != r_.replace("read", ""):
+                ctx.fail("Z2", node, "write_dict / read_dict", "%s: %s" % (tag, fns), "the codec table pairs %s with %s for values tagged %s" % (w_, r_, tag))
+            else:
+                ctx.ok("Z2", "%s:%d" % (SER, node.lineno), "dict tag %s: table row pairs %s / %s" % (tag, w_, r_))
+        if len({wc.consts.get(t_) for _n, t_, _f, _x in rows}) != len(rows):
+            ctx.fail("Z2", wd_, "write_dict", "DICT_*_TYPE", "dict value tags are not distinct")
+        return pairs
     tags_seen = set()
     for tag in sorted(set(wbr) | set(rbr)):
         if tag not in wbr or tag not in rbr:
